@@ -65,6 +65,11 @@ int main(int argc, char **argv)
 		if (c08_cnt < cmin) cmin = c08_cnt;
 		if (c08_cnt > cmax) cmax = c08_cnt;
 		if (c08_dcnt > dmax) dmax = c08_dcnt;
+#ifdef C08_COUNTONLY
+		/* observation count of a stubbed translation (its validation is done on the unstubbed twin) */
+		done++;
+		continue;
+#endif
 		c08_rng_s[0] = s0; c08_rng_s[1] = s1;
 		c08_which = 1; c08_olen = 0;
 		c08_public(); c08_secret(); c08_call_real(); c08_out();
